@@ -9,6 +9,7 @@ import Astm.Lemmas.ReadBackRecord
 import Astm.Generated.Schemas
 import Astm.Contract.Schemas
 import Astm.Model.Heap
+import Astm.Lemmas.DateObjects
 
 namespace Astm.C13
 open Astm Astm.Schema Astm.Fields
@@ -183,6 +184,80 @@ theorem shipped_schemas_read_back : ∀ M ∈ Astm.Gen.schemas, ∀ S ∈ M.reco
 theorem too_many_values_error {α : Type} (specs : List α) (items : List Field) (h : items.length > specs.length) :
     zipFields specs items = .error .value := by
   simp [zipFields, h]
+
+theorem takeWhile_all {α : Type} (p : α → Bool) : ∀ (l : List α), (∀ a ∈ l, p a = true) → l.takeWhile p = l := by
+  intro l
+  induction l with
+  | nil => intro _; rfl
+  | cons a as ih =>
+    intro h
+    simp only [List.takeWhile, h a (by simp)]
+    rw [ih (fun b hb => h b (by simp [hb]))]
+
+/-- A date object assigned to a date field is stored as eight digits which the same field accepts unchanged when they
+    arrive as wire text (so they read back to the same day) and which spell the object's own year, month and day. -/
+theorem date_object_reads_back (sp : Scalar) (t : PyDateTime) (hk : sp.kind = .date) (hd : t.validDate = true) :
+    setScalarObj sp.kind t = .ok (fmtDate t) ∧ setScalar sp (.text (fmtDate t)) = .ok (some (fmtDate t)) ∧
+    num ((fmtDate t).take 4) = t.y ∧ num (((fmtDate t).drop 4).take 2) = t.m ∧ num (((fmtDate t).drop 6).take 2) = t.d := by
+  have hv := validDate_fmtDate t hd
+  simp only [PyDateTime.validDate, Bool.and_eq_true, decide_eq_true_eq] at hd
+  obtain ⟨⟨⟨⟨⟨h1, h2⟩, h3⟩, h4⟩, h5⟩, h6⟩ := hd
+  have hdd : t.d < 100 := by
+    have : daysInMonth t.y t.m ≤ 31 := by unfold daysInMonth; split <;> (try split) <;> omega
+    omega
+  refine ⟨by simp [setScalarObj, hk], ?_, ?_, ?_, ?_⟩
+  · unfold setScalar
+    simp only [hk]
+    simp [checkDigits, length_fmtDate, all_digits_fmtDate, hv, Except.map]
+  · have e : (fmtDate t).take 4 = fmt4 t.y := by simp [fmtDate, fmt4, fmt2]
+    rw [e]; exact num_fmt4 _ (by omega)
+  · have e : ((fmtDate t).drop 4).take 2 = fmt2 t.m := by simp [fmtDate, fmt4, fmt2]
+    rw [e]; exact num_fmt2 _ (by omega)
+  · have e : ((fmtDate t).drop 6).take 2 = fmt2 t.d := by simp [fmtDate, fmt4, fmt2]
+    rw [e]; exact num_fmt2 _ hdd
+
+/-- … a time object in a time field: six digits, accepted unchanged, spelling hour, minute and second. -/
+theorem time_object_reads_back (sp : Scalar) (t : PyDateTime) (hk : sp.kind = .time) (ht : t.validTime = true) :
+    setScalarObj sp.kind t = .ok (fmtTime t) ∧ setScalar sp (.text (fmtTime t)) = .ok (some (fmtTime t)) ∧
+    num ((fmtTime t).take 2) = t.hh ∧ num (((fmtTime t).drop 2).take 2) = t.mi ∧ num (((fmtTime t).drop 4).take 2) = t.ss := by
+  have hv := validTime_fmtTime t ht
+  simp only [PyDateTime.validTime, Bool.and_eq_true, decide_eq_true_eq] at ht
+  obtain ⟨⟨h1, h2⟩, h3⟩ := ht
+  have hnd : beforeDot (fmtTime t) = fmtTime t := by
+    have : ∀ c ∈ fmtTime t, c ≠ '.' := by
+      intro c hc e; subst e
+      have := List.all_eq_true.mp (all_digits_fmtTime t) _ hc
+      simp [isAsciiDigit] at this
+    unfold beforeDot
+    exact takeWhile_all _ _ (fun c hc => by simpa using this c hc)
+  refine ⟨by simp [setScalarObj, hk], ?_, ?_, ?_, ?_⟩
+  · unfold setScalar
+    simp only [hk, hnd]
+    simp [checkDigits, length_fmtTime, all_digits_fmtTime, hv, Except.map]
+  · have e : (fmtTime t).take 2 = fmt2 t.hh := by simp [fmtTime, fmt2]
+    rw [e]; exact num_fmt2 _ (by omega)
+  · have e : ((fmtTime t).drop 2).take 2 = fmt2 t.mi := by simp [fmtTime, fmt2]
+    rw [e]; exact num_fmt2 _ (by omega)
+  · have e : ((fmtTime t).drop 4).take 2 = fmt2 t.ss := by simp [fmtTime, fmt2]
+    rw [e]; exact num_fmt2 _ (by omega)
+
+/-- … a datetime object in a timestamp field: fourteen digits, accepted unchanged (not re-interpreted, no seconds
+    invented or dropped). -/
+theorem datetime_object_reads_back (sp : Scalar) (t : PyDateTime) (hk : sp.kind = .datetime)
+    (hd : t.validDate = true) (ht : t.validTime = true) :
+    setScalarObj sp.kind t = .ok (fmtDate t ++ fmtTime t) ∧
+    setScalar sp (.text (fmtDate t ++ fmtTime t)) = .ok (some (fmtDate t ++ fmtTime t)) := by
+  have hv1 := validDate_fmtDate t hd
+  have hv2 := validTime_fmtTime t ht
+  have e1 : (fmtDate t ++ fmtTime t).take 8 = fmtDate t := by
+    rw [List.take_append_of_le_length (by simp [length_fmtDate])]; simp [List.take_of_length_le, length_fmtDate]
+  have e2 : (fmtDate t ++ fmtTime t).drop 8 = fmtTime t := by
+    have := length_fmtDate t
+    rw [← this]; simp
+  refine ⟨by simp [setScalarObj, hk], ?_⟩
+  unfold setScalar
+  simp only [hk]
+  simp [checkDigits, length_fmtDate, length_fmtTime, all_digits_fmtDate, all_digits_fmtTime, e1, e2, hv1, hv2, Except.map]
 
 theorem mapME_error_of_mem {α β : Type} (f : α → Except Err β) :
     ∀ (xs : List α), (∃ x ∈ xs, ∃ e, f x = .error e) → ∃ e, mapME f xs = .error e := by
